@@ -214,6 +214,32 @@ theorem renderText_fltE (f : Field) (dec : Nat) (fmt c : Char) (hk : f.kind = .f
   · have ht := htake (subst1 '.' c (fmtE r dec false)) (by rw [subst1_length]; simpa using hfit)
     simp [hk, Val.isNull, Dbl.isNaN, hz, hr, Except.map, replace_single, bind, Except.bind, pure, Except.pure, ht]
 
+/-- the text `'{:.{d}e}'` prints for the non-zero finite value `±m'·2^e'` -/
+def sciText (neg : Bool) (m' : Nat) (e' : Int) (d : Nat) (ech : Char) : List Char :=
+  bodyE neg ((natDigits (sci m' e' d).1).take 1) ((natDigits (sci m' e' d).1).drop 1) ech
+    (decide ((sci m' e' d).2 < 0)) (expDigits (sci m' e' d).2)
+
+/-- what `sci_core` says about the digits and exponent printed for `r = ±m'·2^e'`, the value
+`x = ±m·2^e` was rounded to: `d + 1` digits, a small exponent, and the digits are within half
+a unit of their last place of `x` -/
+structure SciOk (m : Nat) (e : Int) (m' : Nat) (e' : Int) (d : Nat) : Prop where
+  hN1 : 10 ^ d ≤ (sci m' e' d).1
+  hN2 : (sci m' e' d).1 < 10 ^ (d + 1)
+  hK1 : -300 ≤ (sci m' e' d).2
+  hK2 : (sci m' e' d).2 ≤ 320
+  hacc : 2 * absdiff ((sci m' e' d).1 * (2 ^ (-(-1074 : Int)).toNat * T ((sci m' e' d).2 - d)))
+      (units (-1074) m e * 10 ^ 400) ≤ 2 ^ (-(-1074 : Int)).toNat * T ((sci m' e' d).2 - d)
+
+theorem sciText_digits (m' : Nat) (e' : Int) (d : Nat) (h1 : -400 ≤ (sci m' e' d).2) (h2 : (sci m' e' d).2 ≤ 400) :
+    ∀ y ∈ (natDigits (sci m' e' d).1).take 1 ++ (natDigits (sci m' e' d).1).drop 1 ++
+        expDigits (sci m' e' d).2, y.isDigit = true := by
+  obtain ⟨_, _, x3, _⟩ := expDigits_facts (sci m' e' d).2 h1 h2
+  intro y hy
+  rw [List.take_append_drop, List.mem_append] at hy
+  rcases hy with hy | hy
+  · exact Cfi.natDigits_isDigit _ y hy
+  · exact x3 y hy
+
 /-- **E-notation float fields**: for a normal double below `2^1013` in magnitude, up to twelve
 declared decimals and a text that fits the field, the text written is `size` wide, parses to
 `r = round(x, decimals − ⌊log10 |x|⌋)`, and writing `r` gives the same text again. -/
@@ -225,9 +251,8 @@ theorem fltE_core (f : Field) (dec : Nat) (fmt c : Char) (hk : f.kind = .flt dec
     (hfit : (fmtE r dec (fmt == 'E')).length ≤ f.size) :
     ∃ t, renderText f (.dbl (.fin neg m e)) = .ok t ∧ t.length = f.size ∧
       parseText f.kind t = some (.dbl r) ∧ renderText f (.dbl r) = .ok t ∧
-      ∃ k ip fp eneg exd, (∀ x ∈ ip ++ fp ++ exd, x.isDigit = true) ∧
-        t = List.replicate k ' ' ++
-          subst1 '.' c (bodyE neg ip fp (if (fmt == 'E') = true then 'E' else 'e') eneg exd) := by
+      ∃ m' e' k, r = .fin neg m' e' ∧ SciOk m e m' e' dec ∧
+        t = List.replicate k ' ' ++ subst1 '.' c (sciText neg m' e' dec (if (fmt == 'E') = true then 'E' else 'e')) := by
   obtain ⟨hk1, hk2⟩ := kbounds m e hwf
   have hm0 : m ≠ 0 := by
     intro h0; subst h0
@@ -289,9 +314,9 @@ theorem fltE_core (f : Field) (dec : Nat) (fmt c : Char) (hk : f.kind = .flt dec
       rw [pyRound_nd neg m' e' _ (by omega) (by omega)]
       unfold nd53 at hself
       rw [hself]; rfl
-    · refine ⟨f.size - (subst1 '.' c (fmtE (.fin neg m' e') dec (fmt == 'E'))).length,
-        (natDigits (sci m' e' dec).1).take 1, (natDigits (sci m' e' dec).1).drop 1,
-        decide ((sci m' e' dec).2 < 0), expDigits (sci m' e' dec).2, hdig, ?_⟩
+    · refine ⟨m', e', f.size - (subst1 '.' c (fmtE (.fin neg m' e') dec (fmt == 'E'))).length, rfl,
+        ⟨hN1, hN2, hK1, hK2, hacc⟩, ?_⟩
+      unfold sciText
       rw [← hshape]; rfl
 
 end Proofs.FloatELaw
